@@ -773,7 +773,9 @@ func handleZRANK(params internal.HandlerFuncParams) ([]byte, error) {
 	member := params.Command[2]
 	withscores := false
 
-	if len(params.Command) == 4 && strings.EqualFold(params.Command[3], "withscores") {
+	// The option is documented as WITHSCORE; the spelling WITHSCORES keeps working
+	if len(params.Command) == 4 &&
+		(strings.EqualFold(params.Command[3], "withscore") || strings.EqualFold(params.Command[3], "withscores")) {
 		withscores = true
 	}
 
